@@ -49,8 +49,11 @@ def setup():
 
 def run(verbose=False):
     setup()
+    contract(F, "pick", cases=[dict(x="int"), dict(x="int", flip="bool")], case_names=["plain", "flip"], returns="int",
+             per_case={"plain": dict(ensures=["result == x"]), "flip": dict(ensures=["result == (-x if flip else x)"])})
+    contract(F, "use_pick_flipped", types=dict(x="int"), returns="int", ensures=["result == -x"])
     expect = {"find_first_ge": True, "find_first_ge_broken": False, "insert_sorted": True,
-              "Box.__init__": True, "Box.bump": True, "evens": True}
+              "Box.__init__": True, "Box.bump": True, "evens": True, "pick": True, "use_pick_flipped": True}
     ok = True
     for (f, q), c in list(REGISTRY.items()):
         r = verify_case(c, 0)
